@@ -86,6 +86,13 @@ func VerifC03() {
 		case 5:
 			done, _ = vInvoke("balance", "newEpoch", 9)
 			check(done, sA, "C03/balance.newEpoch-needs-the-Alphabet")
+		case 6: // the public transfer with NO sender (Null): nobody's witness can stand for it, whoever signs;
+			// it must never create or move anything (minting is the Alphabet's mint)
+			done, _ = vInvoke("balance", "transfer", nil, other, 7, nil)
+			vAssert(!(done && vEffects()), "C03/balance.transfer-from-nobody-never-moves-anything")
+			_, b := vRead("balance", "balanceOf", other)
+			vAssert(b.(int) == 0, "C03/balance.transfer-from-nobody-never-moves-anything")
+			vCover("transfer-from-nobody-tried")
 		}
 	case 1: // netmap
 		vDeploy("netmap", false, nil, nil, nil, []any{})
